@@ -6,7 +6,7 @@ import ast
 from ..report import Ctx
 from ..srcmodel import AnalysisError
 from ..cfg import cfg_of
-from ..atoms import Atomizer
+from ..atoms import Atomizer, must_facts
 from .. import astutil as A
 from .common_node import (closed_connections_are_removed, connection_table_pairing,
                           disconnect_record,
@@ -70,6 +70,17 @@ def run(ctx: Ctx):
     ctx.inst("close_connection_socket:closes")
     if not sock_close:
         ctx.fail("close_connection_socket:closes", ccs.loc(), "the peer socket is never closed")
+    else:
+        atc = Atomizer(model, ccs.module, nc)
+        facts = must_facts(g, atc, sock_close[0])
+        sv = ast.unparse([c for c in sock_close[0].calls() if isinstance(c.func, ast.Attribute)
+                          and c.func.attr == "close"][0].func.value)
+        extra = [f_ for f_ in facts if f_[0] != sv]
+        if extra:
+            ctx.fail("close_connection_socket:closes#conditional", g.loc(sock_close[0]),
+                     f"the socket is only closed under {extra}: when the connection object closed "
+                     f"itself first (garbage on the wire, write error, lost election) the tables are "
+                     f"cleaned but the socket stays open")
     if not conn_close:
         ctx.fail("close_connection_socket:closes#conn", ccs.loc(), "the connection object (and its "
                  "two worker threads) is never closed")
@@ -100,6 +111,24 @@ def run(ctx: Ctx):
             if not g2.dominated(r, a_nodes):
                 ctx.fail(cons, g2.loc(r), "the connection is flagged ready before it is assigned "
                          "to its peer: applications are told ready while Peer.connection is unset")
+    rc = nc.methods.get("receive_cer")
+    if rc is not None:
+        g3 = cfg_of(rc)
+        at3 = Atomizer(model, rc.module, nc)
+        cpar = [a.arg for a in rc.node.args.args][1]
+        hi = [n for n in g3.nodes if n.kind == "stmt" and any(
+            A.dotted(t) == f"{cpar}.host_identity" for t in n.stores())]
+        cons = "receive_cer:identity-is-the-table-key"
+        ctx.inst(cons)
+        for n in hi:
+            v = A.dotted(n.ast.value)
+            facts = must_facts(g3, at3, n)
+            if not any(f_[1] == "in-expr" and f_[2] == "self.peers" and f_[3] and f_[0] == v for f_ in facts):
+                ctx.fail(cons, g3.loc(n), f"the connection's host identity is set to "
+                         f"`{ast.unparse(n.ast.value)}`, which is not the key that was found in "
+                         f"self.peers: _assign_peer_connection looks the peer up under host_identity "
+                         f"and silently returns for a differently spelled (e.g. mixed-case) "
+                         f"Origin-Host - Peer.connection stays unset although the connection is ready")
     flag = nc.methods.get("_flag_connection_as_ready")
     if flag is None:
         raise AnalysisError("Node._flag_connection_as_ready not found")
